@@ -59,8 +59,15 @@ def check_events(events, status):
     return None
 
 def run(rep, tier, seed):
+    # liveness on the model: under weak fairness of the loader's steps every behaviour reaches a verdict ("loading always terminates")
+    tl = tlc.run("MC_C20", "MC_C20_live.cfg", workers=8, timeout=1500, tag="MC_C20_live", collect=())
+    if tl.violations or not tl.ok:
+        rep.fail("C20/model/liveness", "TLC reported a violation of EventuallyFinished / the invariants on MechInclude: " + "; ".join(tl.errors[:3]), {"log": tl.log})
+    if "Checking temporal properties for the complete state space" not in open(tl.log, errors="replace").read():
+        raise tlc.TlcError("MC_C20_live: TLC did not check the temporal property")
+    rep.cov["liveness_states"] = tl.distinct
     if tier == "quick":
-        t = tlc.run("MC_C20", "MC_C20_quick.cfg", workers=16, timeout=1500)
+        t = tlc.run("MC_C20", "MC_C20_quick2.cfg", workers=16, timeout=1500)
     else:
         t = tlc.run("MC_C20", "MC_C20_sim.cfg", workers=1, simulate=30000, depth=40, timeout=3000, extra=["-seed", str(seed)], tag="MC_C20_sim")
     if t.violations or (tier == "quick" and not t.ok):
